@@ -47,7 +47,7 @@ ASSUMPTIONS = [
     "independence (no shared mutable state) is checked on the implementation under ASan/UBSan with seeded edit/free scripts; it is "
     "not a theorem (a pure model has no aliasing)",
     "the lyds pool of LYD_MERGE_DESTRUCT is not modelled: the model of the consuming merge inserts as the copying merge does "
-    "(finding F70 is where the C differs); duplication into another context is modelled as duplication (finding F72 is where the C fails)",
+    "(finding F160 is where the C differs); duplication into another context is modelled as duplication (finding F162 is where the C fails)",
 ]
 TRUSTED = ["tools/vlib/treegen.py (schema/instance generator, YANG renderer)", "harness/treeproto.h (tree loader and canonical dump)"]
 
@@ -167,7 +167,7 @@ def same_inst(a, b):
 
 def merge_features(T, S):
     """Walk the pair the way lyd_merge_sibling_r does (duplicate-instance cache included) and record what the finding
-    predicates look at.  For F70 the lyds pool of a consuming merge is followed: how many red-black nodes the source's sorted
+    predicates look at.  For F160 the lyds pool of a consuming merge is followed: how many red-black nodes the source's sorted
     (leaf-)lists have put into it and whether one is still free when an unmatched instance of a (leaf-)list that libyang does
     NOT keep sorted is linked next to existing instances (lyds_insert2 then sorts / compares what must not be)."""
     f = set()
@@ -205,14 +205,14 @@ def merge_features(T, S):
                 used.append([x, 1, 1])
             if m is not None:
                 if x.sn.kind == "leaflist" and (m.flags & tg.F_DFLT) and not (x.flags & tg.F_DFLT):
-                    f.add("explicit-leaflist-instance-on-default")                  # F71
+                    f.add("explicit-leaflist-instance-on-default")                  # F161
                 if x.sn.kind in ("container", "list"):
                     level(m.kids, x.kids)
             else:
                 grp = [y for y in tk if y.sn is x.sn]
                 if st["pool"] > 0 and grp:
                     if not is_sorted_kind(x.sn):
-                        f.add("pool-nonsorted-insert")                              # F70
+                        f.add("pool-nonsorted-insert")                              # F160
                     if not ((is_sorted_kind(x.sn) and len(grp) >= 2) or x.sn.sid in treed):
                         st["pool"] = max(0, st["pool"] - len(grp))
                         treed.add(x.sn.sid)
@@ -233,7 +233,7 @@ def consecutive_lists(sibs):
 
 
 def top_in_choice(node, parent_of):
-    """the top-level data ancestor-or-self of the node is defined inside a choice (F72)"""
+    """the top-level data ancestor-or-self of the node is defined inside a choice (F162)"""
     n = node
     while parent_of.get(id(n)) is not None:
         n = parent_of[id(n)]
@@ -244,21 +244,21 @@ def classify(component, what, case):
     op, law, feat = case.get("op"), case.get("law"), set(case.get("features", []))
     if "pool-nonsorted-insert" in feat:
         if op == "mlaw" and law in ("destruct", "dcanon", "dptr"):
-            return "F70"
+            return "F160"
         if op == "merge" and law == "destruct":
-            return "F70"
+            return "F160"
         if op == "indep" and (case.get("opts", 0) & M_DESTRUCT) and law == "order":
-            return "F70"
+            return "F160"
         if law == "crash" and (op == "mlaw" or (case.get("opts") or 0) & M_DESTRUCT) and "lyds_insert2" in case.get("stderr", ""):
-            return "F70"
+            return "F160"
     if law == "crash" and op in ("dlaw", "indep"):
         va = [l for l in case.get("stderr", "").split("\n") if l.startswith("[verif-asan]")]
         if va and "kind=heap-use-after-free" in va[-1] and "chg-sorted-ll" in va[-1] and "lyd_hash_table_val_equal" in va[-1]:
-            return "F73"
+            return "F19"
     if op == "mlaw" and law == "containsx" and "explicit-leaflist-instance-on-default" in feat:
-        return "F71"
+        return "F161"
     if op in ("dlaw", "dup") and law == "dup" and case.get("verdict") == "Enotfound" and "top-in-choice" in feat and (case.get("mode") or 0) >= 2:
-        return "F72"
+        return "F162"
     if op == "dlaw" and law == "order" and "consecutive-lists" in feat:
         return "F55"
     return None
@@ -432,9 +432,9 @@ def sanitizer_line(err):
 
 
 def f70_budget(cx):
-    """While F70 is an open (known) finding every predicted instance costs a sanitizer abort or a differing result; run a
+    """While F160 is an open (known) finding every predicted instance costs a sanitizer abort or a differing result; run a
     bounded number of them (the predicate is code: merge_features) and leave the consuming merge of the others out."""
-    if cx.findings.get("F70", {}).get("status") == "known":
+    if cx.findings.get("F160", {}).get("status") == "known":
         return {"left": cx.n(30, 150)}
     return {"left": 1 << 60}
 
@@ -449,7 +449,7 @@ def take_f70(c, budget):
 
 
 def strip_f71(s, token):
-    """dump without the flags that the F71 repair changes (flags of leaf-list instances, default flags of containers)"""
+    """dump without the flags that the F161 repair changes (flags of leaf-list instances, default flags of containers)"""
     if token == "-":
         return token
     f = tg.untok(s, token)
@@ -491,7 +491,7 @@ def process_merge(cx, schemas, cases, tag, rng, all_opts=True, laws=1.3, budget=
         d = tg.hx(c.s.dsl())
         destr = take_f70(c, budget)
         if not destr:
-            cx.dist["consuming merge left out (F70 instance beyond the budget)"] += 1
+            cx.dist["consuming merge left out (F160 instance beyond the budget)"] += 1
         opts = set(range(8)) if all_opts else set([rng.randrange(8), rng.randrange(8) | 1, rng.randrange(4) * 2])
         opts = sorted(opts | set(o & ~M_DESTRUCT for o in opts))       # the copying twin of every consuming merge
         apis = [0]
@@ -535,8 +535,8 @@ def process_merge(cx, schemas, cases, tag, rng, all_opts=True, laws=1.3, budget=
         if a != b:
             if "explicit-leaflist-instance-on-default" in c.feat and a[0] == "ok" and b[0] == "ok" and \
                     [strip_f71(c.s, a[1])] + a[2:] == [strip_f71(c.s, b[1])] + b[2:]:
-                # the implementation carries the repair of F71 (the matched leaf-list instance becomes explicit), the model the pinned behaviour
-                cx.dist["merge: differs from the model only in the flags F71's repair changes"] += 1
+                # the implementation carries the repair of F161 (the matched leaf-list instance becomes explicit), the model the pinned behaviour
+                cx.dist["merge: differs from the model only in the flags F161's repair changes"] += 1
                 continue
             cx.disagree(COMP, l[:20000], a, b)
     if lines:
